@@ -537,6 +537,7 @@ fn addr_list() -> impl Strategy<Value = AddrList> {
             a
         }).boxed()),
         (1, gen::bytes32().boxed()),
+        (1, prop_oneof![Just([0u8; 32]), Just([0xffu8; 32])].boxed()),
     ]);
     let len = prop_oneof![8 => 0usize..8, 1 => 30usize..35, 1 => 62usize..67, 1 => 98usize..102, 1 => 8usize..130];
     (len.prop_flat_map(move |n| proptest::collection::vec(addr.clone(), n)), gen::bytes32()).prop_map(|(addrs, salt)| AddrList { addrs, salt })
